@@ -697,6 +697,7 @@ func (f *fileStore) update(node *btreeNode) error {
 	if err != nil {
 		return err
 	}
+	verifPoint("page.write", node.getFileOffset())
 	if _, err := f.file.WriteAt(buf.Bytes(), int64(node.getFileOffset())); err != nil {
 		return err
 	}
@@ -767,6 +768,7 @@ func (f *fileStore) save() error {
 	if err := binary.Write(writer, binary.LittleEndian, f._nextLSN); err != nil {
 		return err
 	}
+	verifPoint("hdr.write", 0)
 	if _, err := f.file.WriteAt(writer.Bytes(), 0); err != nil {
 		return err
 	}
